@@ -213,7 +213,8 @@ CLAIMED = {
         'euler_is_ZYZ, euler_orthogonal, einsum_is_matvec, projection_formula, acquisition_formula, '
         'acquisition_reduce_equal, PtP_hits, PtP_reduce_equal, multiplicity_is_hit_count: all obligations (count in the evidence file) closed under the '
         'global context. Tie: T-tie Gen/EulerMatrix.v; C-tie feeding the model the implementation\'s own pixel table '
-        '(nside 1-4, 4 Stokes kinds, 1-3 detectors, several directions per detector).',
+        '(nside 1-4, 4 Stokes kinds, 1-3 detectors, several directions per detector; 13 layout classes in which the detector / direction / sample axes '
+        'COINCIDE in size or have size 1, with asymmetric pointing so that swapping axis roles changes the result).',
         'Partial: that pix[d,t] is the HEALPix pixel containing the rotated direction (vec2dir float trig + '
         'jax_healpy.ang2pix) is cross-checked against NumPy Rz.Ry.Rz + healpy on 28k (quick) / 222k directions, not proved. '
         'Reduced skeletons checked per case through the C01/C07 reduce model. Model follows fix b0caed7.',
@@ -232,7 +233,9 @@ CLAIMED = {
         'registered nodes; ~350 instance runs (0-d / 1-element / integer variants of every array field) comparing eager / jit closure / '
         'filter_jit / round trip in several ORDERS on one object and under different ambient configurations at trace and call time; '
         'one-field pairs through one jitted function; static scans for hidden per-object state, Python-level conversions of traced '
-        'fields and ambient reads.',
+        'fields and ambient reads; fifteen action-preserving DERIVATIONS (reduce, .T.T, wrap-and-reduce, tree map, copies...) of operators holding a lazy '
+        'inverse performed under an ambient Config different from the creation one, then applied eagerly / closure-jit / argument-jit and compared with the '
+        'original object and numpy.linalg.solve; static scan ambient_rebuild_scan (no method of a class whose constructor reads ambient state may rebuild it).',
         'Partial: that tracing, jit/XLA and equinox generic flattening preserve values is tested (27 concrete operator '
         'classes, composites, landscapes, both x64 modes), not proved. Trusts the translator, the interpreter\'s Python '
         'semantics on its value domain, the hand-written use classification of fields. Model follows fix 00febbf.',
